@@ -314,9 +314,23 @@ Fixpoint is_real_svg (ts : list tok) : bool :=
       (String.eqb n "svg" && match get (el_attrs a) "xmlns" with Some v => String.eqb v svg_ns | None => false end)%bool
   | _ :: r => is_real_svg r
   end.
+(* what the reader rejects beyond tokenisation: "--" inside a comment (check_comments), end tags that do
+   not match (check_end_names), unclosed elements *)
+Definition comment_ok (c : string) : bool :=
+  (negb (contains_sub "--" c) && negb (ends_with "-" c))%bool.
+Fixpoint nesting_ok (ts : list tok) (stack : list string) : bool :=
+  match ts with
+  | [] => match stack with [] => true | _ => false end
+  | TStart n _ :: r => nesting_ok r (n :: stack)
+  | TRawStart raw :: r => nesting_ok r (take_while (fun c => negb (is_xml_ws c)) raw :: stack)
+  | TEnd n :: r => match stack with m :: st => (String.eqb n m && nesting_ok r st)%bool | [] => false end
+  | TComment c :: r => (comment_ok c && nesting_ok r stack)%bool
+  | _ :: r => nesting_ok r stack
+  end.
+
 (* the pass-through path of a real SVG document: read, convert, write.
    None: not readable; Some None: readable but not a real SVG document (svgdx processing applies) *)
 Definition passthrough_doc (s : string) : option (option string) :=
   match read_xml s with
-  | Some ts => Some (if is_real_svg ts then Some (write_to (map conv ts)) else None)
+  | Some ts => if nesting_ok ts [] then Some (if is_real_svg ts then Some (write_to (map conv ts)) else None) else None
   | None => None end.
